@@ -1,8 +1,8 @@
 CONSTANTS
-  MaxLines = 3
-  MaxInd = 2
-  Pool <- AllBodies
-  MaxRewrites = 2
+  MaxLines = 5
+  MaxInd = 3
+  Pool <- DeepPool
+  MaxRewrites = 1
 INIT Init
 NEXT Next
 INVARIANT EmitCase
